@@ -1,4 +1,5 @@
 import Wx.Glob.C11Inst
+import Wx.Glob.GlobThm
 /-! # C11 — Path filter verdicts follow the documented glob, ignore and extension rules
 
 > For the default path filterer an event without paths always passes and an event naming an explicitly watched file
@@ -49,5 +50,50 @@ theorem concrete_instances (g : Sp.GS.GF) :
     Sp.GS.checkEventC g [] = true ∧
     (∀ ps p, p ∈ ps → g.whitelist.any (fun w => Sp.IF.splitComps w == Sp.IF.splitComps p.path) = true → Sp.GS.checkEventC g ps = true) :=
   ⟨Sp.GS.c11_no_paths g, fun ps p hp hw => Sp.GS.c11_whitelisted g ps p hp hw⟩
+
+/-! ### "follow the documented glob rules": what the lines of the property's grammar mean
+
+The theorems above take the matcher as a parameter. The concrete matcher the stream validates against the real `ignore` crate
+(`Sp.Glob`) is characterised exactly on the grammar the property names, for EVERY name, extension and candidate path (`Clean`
+text: no glob syntax, slash or blank; `[!]` and a trailing `/` set the negation / directories-only flags and nothing else). -/
+open Sp.Glob in
+/-- `name` (also `!name`, `name/`): applies at every depth — matches exactly the relative paths whose last component is `name` -/
+theorem plain_name_rule (neg onlyDir : Bool) (n : List Char) (h : Clean n) :
+    (∃ g, addLine ((if neg then ['!'] else []) ++ n ++ (if onlyDir then ['/'] else [])) = some (some g) ∧
+      g.isWhitelist = neg ∧ g.isOnlyDir = onlyDir ∧ ∀ s, mtch g.toks s = true ↔ s = n ∨ ∃ pre, s = pre ++ '/' :: n) :=
+  ⟨_, addLine_name neg onlyDir n h, rfl, rfl, fun s => name_matches n s h⟩
+
+open Sp.Glob in
+/-- `*.ext`: applies at every depth — matches exactly the paths whose last component is a slash-free stem followed by `.ext` -/
+theorem extension_rule (neg onlyDir : Bool) (e : List Char) (h : Clean e) :
+    (∃ g, addLine ((if neg then ['!'] else []) ++ '*' :: '.' :: e ++ (if onlyDir then ['/'] else [])) = some (some g) ∧
+      g.isWhitelist = neg ∧ g.isOnlyDir = onlyDir ∧
+      ∀ s, mtch g.toks s = true ↔ ∃ pre stem, (s = stem ++ '.' :: e ∨ s = pre ++ '/' :: (stem ++ '.' :: e)) ∧ ∀ c ∈ stem, c ≠ '/') :=
+  ⟨_, addLine_star_ext neg onlyDir e h, rfl, rfl, fun s => star_ext_matches e s⟩
+
+open Sp.Glob in
+/-- `/rooted`: anchored at the directory of the ignore file — matches that relative path only -/
+theorem rooted_rule (neg onlyDir : Bool) (n : List Char) (h : Clean n) :
+    (∃ g, addLine ((if neg then ['!'] else []) ++ '/' :: n ++ (if onlyDir then ['/'] else [])) = some (some g) ∧
+      g.isWhitelist = neg ∧ g.isOnlyDir = onlyDir ∧ ∀ s, mtch g.toks s = true ↔ s = n) :=
+  ⟨_, addLine_rooted neg onlyDir n h, rfl, rfl, fun s => rooted_matches n s h⟩
+
+open Sp.Glob in
+/-- `a/b`: a slash inside anchors too — matches the relative path `a/b` only (not `x/a/b`) -/
+theorem inner_slash_rule (neg onlyDir : Bool) (a b : List Char) (ha : Clean a) (hb : Clean b) :
+    (∃ g, addLine ((if neg then ['!'] else []) ++ (a ++ '/' :: b) ++ (if onlyDir then ['/'] else [])) = some (some g) ∧
+      g.isWhitelist = neg ∧ g.isOnlyDir = onlyDir ∧ ∀ s, mtchToks g.toks s = true ↔ s = a ++ '/' :: b) :=
+  ⟨_, addLine_inner_slash neg onlyDir a b ha hb, rfl, rfl, fun s => lits_iff _ s⟩
+
+open Sp.Glob in
+/-- `x/**`: matches exactly the paths strictly below `x` -/
+theorem dir_contents_rule (neg : Bool) (x : List Char) (h : Clean x) :
+    (∃ g, addLine ((if neg then ['!'] else []) ++ (x ++ ['/', '*', '*'])) = some (some g) ∧
+      g.isWhitelist = neg ∧ ∀ s, mtch g.toks s = true ↔ ∃ rest, s = x ++ '/' :: rest) :=
+  ⟨_, addLine_dir_contents neg x h, rfl, fun s => dir_contents_matches x s h⟩
+
+/-- non-vacuity: `Clean` text exists, and the rules say what one expects on it (kernel-evaluated) -/
+example : Sp.Glob.Clean "target".toList ∧ Sp.Glob.Clean "rs".toList :=
+  ⟨⟨by decide, by decide, by decide⟩, ⟨by decide, by decide, by decide⟩⟩
 
 end Props.C11
